@@ -68,19 +68,20 @@ func genCompressedStream(r *sim.Rng, format string, max int) *checks.StreamRecip
 }
 
 // cutFor draws the length to which a compressed input is truncated; for an
-// archive of several streams half of the cuts fall at, or a few bytes behind,
+// archive of several streams three quarters of the cuts fall at, or a few bytes behind,
 // the start of a later stream (the places where "no more streams" and "a
 // stream that was cut off" have to be told apart).
 func cutFor(r *sim.Rng, st *checks.StreamRecipe) int {
 	b := st.Build()
 	n := len(b.Stream)
-	if len(b.PartEnds) > 1 && r.Bool() {
+	if len(b.PartEnds) > 1 && r.Chance(3, 4) {
 		i := r.Intn(len(b.PartEnds) - 1)
 		start := b.PartEnds[i]
 		if i < len(st.Pads) {
 			start += st.Pads[i]
 		}
-		c := start + sim.Pick(r, []int{0, 1, 2, 3, 4, 5, 6, 8, 11, 12, 13})
+		// 0, 4 and 12: the input ends exactly where one of the reader's reads begins
+		c := start + sim.Pick(r, []int{0, 0, 0, 4, 4, 4, 12, 12, 12, 1, 2, 3, 5, 6, 8, 11, 13})
 		if c < n {
 			return c
 		}
@@ -185,6 +186,14 @@ func genC10(r *sim.Rng, tier string, idx int) *GCase {
 			f.Kind = "stream"
 		case 1:
 			f.Kind = "cut"
+			if format == "xz" && f.Stream.Kind != "multi" && max > 0 && r.Chance(1, 3) {
+				m := &checks.StreamRecipe{Kind: "multi"}
+				for i, k := 0, r.Range(2, 3); i < k; i++ {
+					m.Parts = append(m.Parts, *genCompressedStream(r, "xz", -max/2))
+					m.Pads = append(m.Pads, sim.Pick(r, []int{0, 0, 4, 8}))
+				}
+				f.Stream = m
+			}
 			f.Cut = cutFor(r, f.Stream)
 		case 2:
 			// damage is only unambiguous where the format can detect it: .xz with a
